@@ -90,6 +90,7 @@ PROPS = {
         "level_note": "Real-time part uses wall-clock polls with a 3 s allowance; relative expiries are compared only when the wall-clock second did not change during the call. The expiry manager's nextExp is read through the verif-only accessor VerifNextExp. Trusted: Coq kernel + vm_compute, Go harness.",
         "assumptions": KV_ASSUME + ["an armed time.AfterFunc timer fires at its deadline (Go runtime)", "timer firings in the kv family are placed by the history (the real timer's callback is parked by the expiry.fire hook and the callback is run synchronously by 'expire' steps)"],
     },
+    "C19": _kv("C19", "Proved on the model's store, for every reachable store: the $_keyspace sub-query of a collection ranges over exactly the documents of that collection that have a body, with their current id, body and xattrs (C19_keyspace_is_live_docs), each once (C19_each_once); ORDER BY neither drops nor invents rows. A family of eight statements (ids, hex bodies, count, id filter, body-property filter, xattr-property filter, xattr projection, DESC/LIMIT) is evaluated in the model and compared exactly, row text for row text, with Collection.Query on in-memory (pre-recorded iterator) and on-disk (streaming iterator) buckets after arbitrary histories over three collections; the trace checker re-evaluates each query over the key-value read-back of the collection (acceptance of model traces checked by evaluation). SQLite's evaluator (json_valid, ->>, hex, ORDER BY, LIMIT) is modelled by eval_query, not verified.", model_chk=True),
     "C17": _kv("C17", "Full proof on the model: every successful mutation through any entry point raises the key's revision number by exactly one (1 on creation or re-creation after purge), failed calls leave it, and live events carry the stored number (C17_holds, all histories)."),
     "C04": {
         "families": [{"family": "c04"}],
